@@ -168,6 +168,21 @@ def search_rich():
     return None
 
 
+def enumerator_values():
+    """enumerators take literal values, named constants and constant expressions; the ones without a value count on from the one before"""
+    src = ("module colours\n  implicit none\n  integer, parameter :: base = 10\n  enum, bind(c)\n    enumerator :: e0, e1 = 5, e2, e3 = base, e4, e5, e6 = merge(1, 2, base > 3), e7 = -2, e8\n"
+           "  end enum\nend module colours\n")
+    want = [("e0", "0"), ("e1", "5"), ("e2", "6"), ("e3", "base"), ("e4", "base+1"), ("e5", "base+2"), ("e6", "merge(1,2,base>3)"), ("e7", "-2"), ("e8", "-1")]
+    try:
+        f = realrun.parse_source(src)
+        got = [(v.name, str(v.initial).replace(" ", "")) for v in f.modules[0].enums[0].variables]
+    except Exception as e:
+        got = f"{type(e).__name__}: {e}"
+    if got != want:
+        return {"confirmed": True, "input": {"source": src}, "actual": got, "expected": want, "how": "real parser: (name, value) of the enumerators of one ENUM block"}
+    return None
+
+
 def variants():
     return list(itertools.product(["paren", "star", "kind"], ["decl", "stmt"], ["bare", "kw", "named", "joined"], [True, False], [False, True]))
 
@@ -200,7 +215,7 @@ def search():
         if d:
             return {"confirmed": True, "input": {"source": text, "base": base_text, "variant": v}, "actual": d, "expected": "same canonical entity tree as the base spelling",
                     "how": f"real parser: base spelling vs variant (kind spelling, attribute style, end style, '::', upper case) = {v}"}
-    return search_rich()
+    return search_rich() or enumerator_values()
 
 
 def count_cases():
